@@ -13,7 +13,7 @@ fi
 rc=0
 for id in "$@"; do
   echo "=== $id against seeded/$name"
-  VERIF_REPO="$wt" timeout 3000 "$here/check" "$id" --tier "${TIER:-quick}" --no-evidence 2>&1 \
+  VERIF_REPLAYS="$wt/.verif_replays" VERIF_REPO="$wt" timeout 3000 "$here/check" "$id" --tier "${TIER:-quick}" --no-evidence 2>&1 \
      | grep -v "Experienced timeout\|Timeout occurred" | grep -E "VIOLATION|fingerprint|KNOWN-FINDING|HARNESS|^C[0-9]+ tier" | cut -c1-260
 done
 git -C /repo worktree remove --force "$wt"
